@@ -593,3 +593,14 @@ def h_funrep(c):
     if c.get("jit"):
         f = jax.jit(f)
     return to_wire(f(**kw))
+
+
+# ---- C07 ---------------------------------------------------------------------------------
+def h_template(c):
+    from lcm.entry_point import get_lcm_function
+    model = _build_model(c)
+    _, template = get_lcm_function(model, targets="solve")
+    t = _template_wire(template)
+    return {"keys": t["keys"], "entries": {k: v for k, v in t["entries"].items() if k not in ("beta", "shocks")},
+            "shocks": t["entries"].get("shocks", {}) or {},
+            "beta_is_nan": bool(np.isnan(np.asarray(template["beta"])))}
